@@ -3,23 +3,45 @@ import itertools
 import json
 
 from vlib import core, npcgen, twoconf
+from harness import c06_gen
 
 PROP = 'C06'
-MODEL_MODULES = ['TenpyModel.Util.J', 'TenpyModel.Core.Codec']
+MODEL_MODULES = ['TenpyModel.Util.J', 'TenpyModel.Core.Codec', 'TenpyModel.C06.ModelExt']
 PROPS_MODULES = ['TenpyModel.C06.Props']
 LEVEL = 'proof'
 BUDGET = {'quick': 170, 'thorough': 1500}
 RULE = ('legs: 0-3 charges with mod in 1..5, 0-5 blocks of size 0-3, blocked / sorted-with-duplicates / arbitrary '
-        'order, both directions, flags as set by LegCharge() or from_qind; pipes of 1-4 such legs, both outgoing '
-        'directions, sort/bunch on and off; thorough additionally enumerates ALL small legs exhaustively. Each case '
-        'is run on the real code under both kernel configurations (fresh compiled build, TENPY_NO_CYTHON=1) and on '
-        'the Lean model; every structure (slices, charges, flags, q_map, q_map_slices, _perm, _strides, flat map) is '
-        'compared exactly. Non-trivial: at least one leg with >=2 blocks and >=1 charge; distinct by content hash.')
+        'order, both directions, flags as set by LegCharge() or from_qind; pipes of 1-4 such legs (incoming legs may be '
+        'pipes themselves), both outgoing directions, sort/bunch on and off, plain and dipolar ChargeInfo; kind conv: every '
+        'constructor/conversion of LegCharge and ChargeInfo (from_trivial/qflat/qdict/add_charge/drop_charge/'
+        'change_charge by index and by name, to_qdict, apply_charge_mapping with (Dipolar)ChargeInfo.shift_charges, '
+        'charge_sectors, get_qindex_of_charges, extend(int), ==/test_equal/test_contractible in every outcome, the '
+        'constructor sanity check on invalid data, perm_qind_from_perm_flat); kind arr: programs of 1-5 '
+        'combine_legs / split_legs / sort_legcharge / as_completely_blocked / make_pipe calls on random tensors of rank '
+        '2-7 (float, complex, int; all blocks, some blocks, one block, no block) in every argument form (one group or '
+        'several, labels or indices, new_axes default / list / negative / int, qconj None / int / list, pipes None / '
+        'given / given conjugated / unsorted / unbunched, split by None / labels / subset, cutoff, nested pipes split '
+        'level by level, spectator legs, documented argument errors); thorough additionally enumerates ALL small legs '
+        'exhaustively. Each case is run on the real code under both kernel configurations (fresh compiled build, '
+        'TENPY_NO_CYTHON=1) and (kinds leg, pipe, conv) on the Lean model; every structure (slices, charges, flags, '
+        'q_map, q_map_slices, _perm, _strides, flat map) is compared exactly; kind arr is checked by a dense '
+        'transposition/reshape oracle built from map_incoming_flat. Non-trivial: at least one leg with >=2 blocks and '
+        '>=1 charge; distinct by content hash.')
 TRUSTED = ['Lean 4.33 kernel; axioms of every C06_* theorem ⊆ {propext, Classical.choice, Quot.sound}',
-           'hand-written model lean/TenpyModel/Core/{Charge,Leg,Pipe}.lean tied to tenpy/linalg/charges.py and '
-           '_npc_helper.pyx by this correspondence run (exact structural diff, both kernel configurations)',
-           'numpy lexsort is stable (modelled by a stable insertion sort); serialiser vlib/npcio.py']
+           'hand-written model lean/TenpyModel/Core/{Charge,Leg,Pipe}.lean + C06/ModelExt.lean tied to '
+           'tenpy/linalg/charges.py and _npc_helper.pyx by this correspondence run (exact structural diff, both kernel '
+           'configurations)',
+           'numpy lexsort is stable (modelled by a stable insertion sort); serialiser vlib/npcio.py',
+           'kind arr (Array.combine_legs/split_legs/sort_legcharge/as_completely_blocked/make_pipe): model-free oracle '
+           'only (documented axis/label contract + index map of the pipes, themselves compared with the Lean model)']
 ASSUMPTIONS = ['numpy integer arithmetic on int64 does not overflow for the generated sizes']
+
+COVERAGE_NOTE = ('2026-09-26 coverage round: quick tier (seed 0), harness.c06_worker under coverage --branch with '
+                 'TENPY_NO_CYTHON=1; the 68 anchored functions of charges.py + np_conserved.py (list in notes/C06.md): '
+                 'lines 461/687 = 67.1% -> 686/687 = 99.9%, branches 143/260 = 55.0% -> 258/260 = 99.2% (26 anchored '
+                 'functions were never called before, 0 now; the 2 missing branches are unreachable); charges.py whole file '
+                 'lines 56.1% -> 81.3%, branches 36.6% -> 78.9%. Compiled twins: not measurable, run on the same cases '
+                 'in the cy configuration and compared output by output.')
 
 
 def gen_leg_case(rng):
@@ -30,19 +52,6 @@ def gen_leg_case(rng):
     mask = [rng.random() < 0.6 for _ in range(n)]
     gq = sorted({rng.randint(-n - 2, n + 2) for _ in range(6)} | {n, -n, n - 1, 0, -n - 1})
     return dict(k='leg', leg=leg, extra=extra, mask=mask, gq=gq)
-
-
-def gen_pipe_case(rng, seed):
-    mods = npcgen.gen_mods(rng)
-    nl = rng.choices([1, 2, 3, 4], weights=[2, 5, 3, 1])[0]
-    legs = [npcgen.gen_leg(rng, mods, max_blocks=4 if nl < 3 else 3, max_size=3 if nl < 4 else 2,
-                           allow_empty=rng.random() < 0.15) for _ in range(nl)]
-    shape = [npcgen.leg_len(l) for l in legs]
-    idx = []
-    for _ in range(6):
-        idx.append([rng.randint(-s - 1, s) if rng.random() < 0.15 else rng.randrange(s) if s else 0 for s in shape])
-    return dict(k='pipe', legs=legs, qconj=rng.choice([1, -1]), sort=rng.random() < 0.7, bunch=rng.random() < 0.7,
-                idx=idx, seed=seed)
 
 
 def exhaustive_pipe_cases():
@@ -74,13 +83,22 @@ CORPUS = [
     dict(k='pipe', legs=[dict(mods=[1], slices=[0, 1, 3], charges=[[1], [0]], qconj=1, ctor='init'),
                          dict(mods=[1], slices=[0, 2, 3], charges=[[0], [1]], qconj=-1, ctor='qind')],
          qconj=-1, sort=True, bunch=True, idx=[[0, 0], [2, 2], [1, -1], [3, 0]], seed=1),
-]
+] + c06_gen.CORPUS
 
 
-def cases_for(ctx, tag, n_leg, n_pipe):
+def cases_for(ctx, tag, n_leg, n_pipe, n_conv=0, n_arr=0):
     rng = ctx.sub_rng(tag)
-    return ([gen_leg_case(rng) for _ in range(n_leg)]
-            + [gen_pipe_case(rng, i) for i in range(n_pipe)])
+    cases = ([gen_leg_case(rng) for _ in range(n_leg)]
+             + [c06_gen.gen_pipe_case(rng, i) for i in range(n_pipe)])
+    rng2 = ctx.sub_rng(tag + ':conv')
+    cases += [c06_gen.gen_conv_case(rng2) for _ in range(n_conv)]
+    rng3 = ctx.sub_rng(tag + ':arr')
+    cases += [c06_gen.gen_arr_case(rng3, i) for i in range(n_arr)]
+    return cases
+
+
+def quick_cases(ctx):
+    return list(CORPUS) + cases_for(ctx, 'main', 2500, 2500, 2000, 2500)
 
 
 def evaluate(ctx, cases, use_model=True, configs=('cy', 'py')):
@@ -92,35 +110,50 @@ def evaluate(ctx, cases, use_model=True, configs=('cy', 'py')):
     models = iter(core.run_driver('C06', lean_in)) if use_model and lean_in else iter([])
     for i, case in enumerate(cases):
         r = ref[i]
-        nontriv = any(npcgen.leg_nontrivial(l) for l in ([case['leg']] if case['k'] == 'leg' else case['legs']))
-        res.note_case(case, nontriv)
+        res.note_case(case, c06_gen.case_nontrivial(case))
         res.count('kind=' + case['k'])
-        res.count('ncharges=%d' % len((case.get('leg') or case['legs'][0])['mods']))
-        if case['k'] == 'pipe':
-            res.count('nlegs=%d' % len(case['legs']))
-            res.count('sort=%s,bunch=%s' % (case['sort'], case['bunch']))
+        for key in c06_gen.histogram_keys(case):
+            res.count(key)
         if 'crash' in r:
             res.fail('correspondence', 'c06.worker-crash', r['crash'], case)
             continue
         if 'error' in r['out']:
             res.count('error=' + r['out']['error'])
-        for sig, detail in r['oracle']:
+        if case['k'] == 'arr':  # ranks actually reached (= ndim of the block copies in the kernels)
+            rank = len(case['legs'])
+            nb = r['obs']['stored_blocks']
+            res.count('arr.stored_blocks=' + ('0' if nb == 0 else '1' if nb == 1 else '2-4' if nb < 5 else '>=5'))
+            for st in r['obs']['steps']:
+                if st['op'] == 'split':
+                    res.count('split.source_rank=%d' % rank)
+                if 'labels' in st:
+                    rank = len(st['labels'])
+                    if st['op'] == 'combine':
+                        res.count('combine.result_rank=%d' % rank)
+                        if any(lab and '((' in lab for lab in st['labels']):
+                            res.count('combine.nested')
+        tainted = set()
+        for sig, detail, taint in r['oracle']:
             res.fail('property', sig, f'[{ref_cfg}] {detail}', case)
+            tainted.add(taint)
         # the two kernel configurations against each other
         for cfg in configs[1:]:
             o = runs[cfg]['results'][i]
-            for sig, detail in o.get('oracle', []):
-                if (sig, detail) not in [tuple(x) for x in r['oracle']]:
+            for sig, detail, taint in o.get('oracle', []):
+                if [sig, detail, taint] not in r['oracle']:
                     res.fail('property', sig, f'[{cfg}] {detail}', case)
-            if o.get('out') != r['out'] or o.get('in') != r['in']:
-                k = first_diff(r.get('out'), o.get('out'))
+                    tainted.add(taint)
+            if o.get('out') != r['out'] or o.get('in') != r.get('in') or o.get('obs') != r.get('obs'):
+                k = first_diff(dict(out=r.get('out'), obs=r.get('obs')), dict(out=o.get('out'), obs=o.get('obs')))
                 res.fail('correspondence', 'c06.kernels-differ', f'{ref_cfg} vs {cfg} at {k}', case)
-        if use_model:
+        if use_model and 'in' in r:
             m = next(models)
             res.traces_validated += 1
-            d = diff_model(case['k'], r['out'], m)
-            if d and not r['oracle']:
-                res.fail('correspondence', 'c06.model-vs-impl.' + d[0], d[1], case)
+            # a violation reported by the oracle taints only the output it concerns (None = the whole case)
+            if None not in tainted:
+                d = diff_model(case['k'], r['out'], m, tainted)
+                if d:
+                    res.fail('correspondence', 'c06.model-vs-impl.' + d[0], d[1], case)
     return res
 
 
@@ -138,7 +171,7 @@ def first_diff(a, b, path=''):
     return f'{path}: {a!r} vs {b!r}'[:300]
 
 
-def diff_model(kind, out, m):
+def diff_model(kind, out, m, tainted=()):
     if 'error' in m:
         if 'error' in out:
             return None
@@ -146,7 +179,7 @@ def diff_model(kind, out, m):
     if 'error' in out:
         return ('impl-error', f'impl raised {out["error"]}, model returned a value')
     for k in out:
-        if out[k] != m.get(k):
+        if k not in tainted and out[k] != m.get(k):
             return (k, first_diff(out[k], m.get(k), k))
     return None
 
@@ -154,16 +187,17 @@ def diff_model(kind, out, m):
 def run(ctx):
     res = core.Result()
     if ctx.quick:
-        cases = list(CORPUS) + cases_for(ctx, 'main', 2500, 2500)
+        cases = quick_cases(ctx)
     else:
-        cases = list(CORPUS) + exhaustive_pipe_cases() + cases_for(ctx, 'main', 10000, 10000)
+        cases = list(CORPUS) + exhaustive_pipe_cases() + cases_for(ctx, 'main', 10000, 10000, 8000, 8000)
         res.extra['exhaustive_small_pipes'] = len(exhaustive_pipe_cases())
     res.merge(evaluate(ctx, cases))
+    res.extra['anchor_coverage_note'] = COVERAGE_NOTE
     return res
 
 
 def search(ctx, reasons):
-    cases = list(CORPUS) + cases_for(ctx, 'search', 1500, 1500)
+    cases = list(CORPUS) + cases_for(ctx, 'search', 1500, 1500, 1500, 1500)
     return evaluate(ctx, cases, use_model=False)
 
 
